@@ -38,6 +38,8 @@ class TWorker(env.BaseWorker):
         self.results = []
         self.hist = hashlib.blake2b(digest_size=10)
         self.trace = []  # op descriptors executed (for replay divergence checks / C09 reports)
+        self.fault = None  # (site class, occurrence, errno name): one injected I/O error in this thread
+        self.site_counts = {}
         self.th = threading.Thread(target=self._run, daemon=True, name="hsverif-" + name)
 
     def _run(self):
@@ -81,9 +83,32 @@ class TWorker(env.BaseWorker):
         self.pred = None
         self.hist.update(repr(op).encode())
         self.trace.append(op)
+        self._maybe_fault(op)
 
     def private(self, op):
         self.hist.update(repr(op).encode())
+        self._maybe_fault(op)
+
+    def _maybe_fault(self, op):
+        if self.fault is None or self.abort:
+            return
+        from . import engine_f
+        if not engine_f.is_fault_site(op):
+            return
+        import os as _os
+        k = engine_f.site_class(op)
+        n = self.site_counts.get(k, 0)
+        self.site_counts[k] = n + 1
+        dest = self.real[-1] if self.real else None
+        e = engine_f.ERRNOS[self.fault[2]]
+        if k == self.fault[0] and n == self.fault[1]:
+            self.hist.update(b"FAULT")
+            if len(self.fault) > 3 and self.fault[3] and dest is not None:
+                self.persist = getattr(self, "persist", set()) | {dest}
+            raise OSError(e, _os.strerror(e) + " (injected)")
+        if dest is not None and dest in getattr(self, "persist", ()):
+            self.hist.update(b"FAULT")
+            raise OSError(e, _os.strerror(e) + " (injected, persistent)")
 
     def obs(self, *x):
         self.hist.update(repr(x).encode())
@@ -314,6 +339,7 @@ def run_execution(sc, root, prefix, visited, explore=True, bound=None, observer=
     threads = sc.make_threads() if hasattr(sc, "make_threads") else sc.threads
     for name in sorted(threads):
         s.workers.append(TWorker(s, name, threads[name]))
+        s.workers[-1].fault = (getattr(sc, "faults", None) or {}).get(name)
     for w in s.workers:
         w.th.start()
     ex = Execution()
